@@ -1,18 +1,61 @@
-(* C10 — No call-breaking signature change goes unreported.  Property theorems only. *)
-From Coq Require Import List Arith Bool.
-From Verif Require Import Lib.Sexp Model.C10_kinds Gen.C10_tables Model.C10_diff Proofs.C10_diff Proofs.C10_complete.
+(* C10 — No call-breaking signature change goes unreported.  Property theorems only.
+   fdiff   = the table rules of _function_incompatibilities (removed/swallowed, required, moved, kind, default, added);
+   fdiff_m = the code under test: fdiff plus the members of `incompatible_kind` that look at the old signature
+             (Gen/C10_rules.v: none in the unrepaired code, the collision rule in the repaired one);
+   xdiff   = fdiff_m on signatures whose defaults are expression trees, compared through a key. *)
+From Coq Require Import List Arith Bool ZArith.
+From Verif Require Import Lib.Sexp Model.C10_kinds Gen.C10_tables Gen.C10_rules Model.C10_diff Model.C10_defaults Model.C10_ext
+  Proofs.C10_diff Proofs.C10_complete Proofs.C10_sound Proofs.C10_rule Proofs.C10_defaults.
 Import ListNotations.
 Open Scope list_scope. Open Scope nat_scope.
 
+(* ---- the regenerated rules are the documented ones ---- *)
+Theorem C10_code_under_test : forall old new, fdiff_m old new = fdiff_g (ck_rule COLLISION_RULE) old new.
+Proof. exact fdiff_m_eq. Qed.
+Print Assumptions C10_code_under_test.
+Theorem C10_table_rules_included : forall ck old new b, In b (fdiff old new) -> In b (fdiff_g ck old new).
+Proof. exact fdiff_sub. Qed.
+Print Assumptions C10_table_rules_included.
+
+(* ---- identical signatures produce no report ---- *)
 Theorem C10_identical_silent : forall s, nodup_names s = true -> fdiff s s = [].
 Proof. exact identical_silent. Qed.
 Print Assumptions C10_identical_silent.
+Theorem C10_identical_silent_code : forall ck s, nodup_names s = true -> fdiff_g ck s s = [].
+Proof. exact identical_silent_g. Qed.
+Print Assumptions C10_identical_silent_code.
+Theorem C10_identical_silent_expressions : forall idf s, nodup_names (abs_sig (idf s s) s) = true -> xdiff idf s s = [].
+Proof. exact identical_silent_x. Qed.
+Print Assumptions C10_identical_silent_expressions.
 
-(* every reported parameter breakage names a parameter whose presence, kind, position, default or required-ness changed *)
-Theorem C10_reports_sound : forall old new b, In b (fdiff old new) -> changed old new b.
-Proof. exact reports_sound. Qed.
+(* ---- every reported parameter breakage names a parameter whose presence, kind, position, default or required-ness changed ---- *)
+Theorem C10_reports_sound : forall ck old new b, In b (fdiff_g ck old new) -> changed old new b.
+Proof. exact reports_sound_g. Qed.
 Print Assumptions C10_reports_sound.
 
+(* ... and comes with a concrete call that old binds and new rejects, unless a documented excuse holds *)
+Theorem C10_reports_justified : forall old new, wf old = true -> wf new = true ->
+  forall ck b, In b (fdiff_g ck old new) -> excuse old new b = false ->
+  exists n K, witness old new b = Some (n, K) /\ binds old n K = true /\ binds new n K = false.
+Proof. exact reports_justified. Qed.
+Print Assumptions C10_reports_justified.
+Theorem C10_excuse_meaning : forall old new b, excuse old new b = true ->
+  match b with
+  | ChDef _ | Moved _ => True
+  | ChKind n => collides old new n = false
+  | AddedReq n | ChReq n => forall np, find n new = Some np -> pos_kind (pkind np) = true /\ index_of n new < nreqpo old
+  | Removed n => forall op, find n old = Some op ->
+      match pkind op with
+      | KO => False
+      | PK => has_kind VK new = true /\ npos old <= npos new
+      | PO => npos old <= npos new
+      | VP => has_kind VP new = true
+      | VK => has_kind VK new = true end
+  end.
+Proof. exact excuse_meaning. Qed.
+Print Assumptions C10_excuse_meaning.
+
+(* ---- moved positional / changed default / optional made required are always reported ---- *)
 Theorem C10_moved_reported : forall old new oi op np,
   nth_error old oi = Some op -> find (pname op) new = Some np ->
   pos_kind (pkind op) = true -> pos_kind (pkind np) = true -> index_of (pname op) new <> oi ->
@@ -35,29 +78,95 @@ Theorem C10_made_required_reported : forall old new oi op np,
 Proof. exact made_required_reported. Qed.
 Print Assumptions C10_made_required_reported.
 
-(* The unqualified completeness statement is false of the faithful model (and of the code: the witnesses are
-   replayed on the implementation on every run).  One witness per known finding. *)
-Theorem C10_complete_refuted_F2 : exists old new n K, wf old = true /\ wf new = true /\ ~ complete_at old new n K.
-Proof. exact complete_refuted_F2. Qed.
+(* ---- defaults as expressions: the abstract value identifies exactly the defaults with the same key ---- *)
+Theorem C10_abstract_default_values : forall (K : Type) (keq : K -> K -> bool) (key : dexp -> K),
+  (forall x y, keq x y = true <-> x = y) -> forall pool a b, In a pool -> In b pool ->
+  (ident keq key pool a = ident keq key pool b <-> key a = key b).
+Proof. exact ident_eq_iff. Qed.
+Print Assumptions C10_abstract_default_values.
+
+(* for ANY equality on defaults that refines identity of the compiled expression, a changed default is reported *)
+Theorem C10_default_change_reported_refining : forall (K : Type) (keq : K -> K -> bool) (key : dexp -> K),
+  (forall x y, keq x y = true <-> x = y) -> (forall a b, key a = key b -> a = b) ->
+  forall ck old new oi op np a b,
+  nth_error old oi = Some op -> xfind (xname op) new = Some np ->
+  var_kind (xkind op) = false -> var_kind (xkind np) = false ->
+  xdef op = Some a -> xdef np = Some b -> a <> b ->
+  In (ChDef (xname op)) (fdiff_g ck (abs_sig (ident keq key (pool_of old new)) old) (abs_sig (ident keq key (pool_of old new)) new)).
+Proof. exact default_change_reported_refining. Qed.
+Print Assumptions C10_default_change_reported_refining.
+
+(* the implementation's equality does refine it away from f-string replacement fields ... *)
+Theorem C10_impl_equality_refines : forall a b, fmt_free a = true -> fmt_free b = true -> impl_key a = impl_key b -> a = b.
+Proof. exact impl_key_refines. Qed.
+Print Assumptions C10_impl_equality_refines.
+(* ... so a changed default is reported by the code under test unless the pair is in F8, which needs an f-string field *)
+Theorem C10_default_change_reported_code : forall old new oi op np a b,
+  nth_error old oi = Some op -> xfind (xname op) new = Some np ->
+  var_kind (xkind op) = false -> var_kind (xkind np) = false ->
+  xdef op = Some a -> xdef np = Some b -> a <> b ->
+  In (ChDef (xname op)) (xdiff impl_ident old new) \/ f8_param new op = true.
+Proof. exact default_change_reported_impl. Qed.
+Print Assumptions C10_default_change_reported_code.
+Theorem C10_F8_only_fstrings : forall new op, f8_param new op = true ->
+  FMT_LOSSY = true /\ exists np a b, xfind (xname op) new = Some np /\ xdef op = Some a /\ xdef np = Some b /\ a <> b /\
+                                     (fmt_free a = false \/ fmt_free b = false).
+Proof. exact f8_only_fstrings. Qed.
+Print Assumptions C10_F8_only_fstrings.
+Theorem C10_default_change_refuted_F8 : FMT_LOSSY = true ->
+  exists a b, a <> b /\ xdiff impl_ident [xmk 0 PK (Some a)] [xmk 0 PK (Some b)] = [] /\ F8 [xmk 0 PK (Some a)] [xmk 0 PK (Some b)] = true.
+Proof. exact default_change_refuted_F8. Qed.
+Print Assumptions C10_default_change_refuted_F8.
+(* a reported default breakage means the key, hence the compiled expression, changed *)
+Theorem C10_default_report_means_changed : forall (K : Type) (keq : K -> K -> bool) (key : dexp -> K) ck old new n,
+  In (ChDef n) (fdiff_g ck (abs_sig (ident keq key (pool_of old new)) old) (abs_sig (ident keq key (pool_of old new)) new)) ->
+  exists op np a b, In op old /\ xname op = n /\ xfind n new = Some np /\ xdef op = Some a /\ xdef np = Some b /\ key a <> key b.
+Proof. exact default_report_means_key_changed. Qed.
+Print Assumptions C10_default_report_means_changed.
+(* comparing parenthesis-free renderings does not refine it: same tokens, other computed value, nothing reported *)
+Theorem C10_text_equality_does_not_refine :
+  text_key grp_a = text_key grp_b /\ dval grp_a = Some 300%Z /\ dval grp_b = Some 123%Z /\
+  xdiff text_ident [xmk 0 PK (Some grp_a)] [xmk 0 PK (Some grp_b)] = [] /\
+  xdiff impl_ident [xmk 0 PK (Some grp_a)] [xmk 0 PK (Some grp_b)] = [ChDef 0].
+Proof. exact text_equality_does_not_refine. Qed.
+Print Assumptions C10_text_equality_does_not_refine.
+
+(* ---- completeness ---- *)
+(* The unqualified statement is false of the code under test (the witnesses are replayed on the implementation on every
+   run): F2 with or without the collision rule, F4..F7 as long as the code has no collision rule. *)
+Theorem C10_complete_refuted_F2 : exists old new n K, wf old = true /\ wf new = true /\ ~ complete_at_m old new n K.
+Proof. exact complete_refuted_F2_m. Qed.
 Print Assumptions C10_complete_refuted_F2.
-Theorem C10_complete_refuted_F4 : exists old new n K, wf old = true /\ wf new = true /\ ~ complete_at old new n K.
-Proof. exact complete_refuted_F4. Qed.
+Theorem C10_complete_refuted_F4 : COLLISION_RULE = false -> exists old new n K, wf old = true /\ wf new = true /\ ~ complete_at_m old new n K.
+Proof. exact complete_refuted_F4_m. Qed.
 Print Assumptions C10_complete_refuted_F4.
-Theorem C10_complete_refuted_F5 : exists old new n K, wf old = true /\ wf new = true /\ ~ complete_at old new n K.
-Proof. exact complete_refuted_F5. Qed.
+Theorem C10_complete_refuted_F5 : COLLISION_RULE = false -> exists old new n K, wf old = true /\ wf new = true /\ ~ complete_at_m old new n K.
+Proof. exact complete_refuted_F5_m. Qed.
 Print Assumptions C10_complete_refuted_F5.
-Theorem C10_complete_refuted_F6 : exists old new n K, wf old = true /\ wf new = true /\ ~ complete_at old new n K.
-Proof. exact complete_refuted_F6. Qed.
+Theorem C10_complete_refuted_F6 : COLLISION_RULE = false -> exists old new n K, wf old = true /\ wf new = true /\ ~ complete_at_m old new n K.
+Proof. exact complete_refuted_F6_m. Qed.
 Print Assumptions C10_complete_refuted_F6.
-Theorem C10_complete_refuted_F7 : exists old new n K, wf old = true /\ wf new = true /\ ~ complete_at old new n K.
-Proof. exact complete_refuted_F7. Qed.
+Theorem C10_complete_refuted_F7 : COLLISION_RULE = false -> exists old new n K, wf old = true /\ wf new = true /\ ~ complete_at_m old new n K.
+Proof. exact complete_refuted_F7_m. Qed.
 Print Assumptions C10_complete_refuted_F7.
 
-(* Completeness for ALL well-formed signature pairs and ALL call shapes (any number of positionals, any keyword names):
-   if CPython binds the call against old and rejects it against new, then something is reported -- unless the pair
-   satisfies one of the five decidable known-gap predicates (findings F2 F4 F5 F6 F7, each refuted above). *)
+(* Completeness of the code under test for ALL well-formed signature pairs and ALL calls (any number of positionals, any
+   keyword list): if CPython binds the call against old and rejects it against new, then something is reported -- unless
+   the pair satisfies a known-gap predicate that remains for this code (F2; F4..F7 when there is no collision rule). *)
 Theorem C10_complete_modulo_known : forall old new n K,
   wf old = true -> wf new = true -> binds old n K = true -> binds new n K = false ->
-  fdiff old new <> [] \/ known_gap old new = true.
-Proof. exact complete_modulo_known. Qed.
+  fdiff_m old new <> [] \/ known_gap_m old new = true.
+Proof. exact complete_modulo_known_m. Qed.
 Print Assumptions C10_complete_modulo_known.
+
+(* With the collision rule (the prepared repair) only F2 remains, and every report of that rule is call-breaking. *)
+Theorem C10_complete_with_collision_rule : forall old new n K,
+  wf old = true -> wf new = true -> binds old n K = true -> binds new n K = false ->
+  fdiff_g (ck_rule true) old new <> [] \/ F2 old new = true.
+Proof. exact complete_with_collision_rule. Qed.
+Print Assumptions C10_complete_with_collision_rule.
+Theorem C10_collision_rule_sound : forall old new b,
+  wf old = true -> wf new = true -> In b (collide (ck_rule true) old new) ->
+  exists n K, witness old new b = Some (n, K) /\ binds old n K = true /\ binds new n K = false.
+Proof. exact collision_rule_sound. Qed.
+Print Assumptions C10_collision_rule_sound.
